@@ -23,7 +23,7 @@ CHECKS = [
         "cancellation at each await) passes _resume(); that no public view (schema/params/status/traits/known_list/fault-log views, 59 "
         "properties) can raise ArithmeticError or a KeyError from a payload-derived key; that the fault-log map only holds timestamps present "
         "in the log; and that the gateway's message handlers and process_msg are fenced with entity handlers deferred. Does not decide "
-        "'every view after every history' beyond these classes, nor that foreign traffic never alters tracked state (behavioural). The view closure also excludes AssertionError from asserts on payload-derived data and IndexError from constant indexes into sequences of unproven length. Also decides: the array-fragment merge requires whole-source and code equality and a time window as conjuncts of its predicate. Also decides (R5): a message whose payload a view iterates as a list of dicts is only parked under a list test of its payload, and every constant payload key a view subscripts is present in every dict its producing parser/helper returns. R6: no class-level container is mutated through self without a per-instance re-binding (entities do not share state). Session 5: R1 also - no store to an object Engine._pause/_resume act through (_transport/_protocol) inside the pause bracket unless put back before the resume; R7 - classes an object is promoted to by `self.__class__ = ...` (the HVAC classes of the folded eavesdropping table, the zone classes) read no instance attribute that only their own __init__ would have set.",
+        "'every view after every history' beyond these classes, nor that foreign traffic never alters tracked state (behavioural). The view closure also excludes AssertionError from asserts on payload-derived data and IndexError from constant indexes into sequences of unproven length. Also decides: the array-fragment merge requires whole-source and code equality and a time window as conjuncts of its predicate. Also decides (R5): a message whose payload a view iterates as a list of dicts is only parked under a list test of its payload, and every constant payload key a view subscripts is present in every dict its producing parser/helper returns. R6: no class-level container is mutated through self without a per-instance re-binding (entities do not share state). Session 5: R1 also - no store to an object Engine._pause/_resume act through (_transport/_protocol) inside the pause bracket unless put back before the resume; R7 - classes an object is promoted to by `self.__class__ = ...` (the HVAC classes of the folded eavesdropping table, the zone classes) read no instance attribute that only their own __init__ would have set. Round 4: R4 also - the dispatcher never classes a packet's destination by that packet; R6 also counts augmented assignment of a class-level container as in-place mutation.",
         "note": BASE_NOTE + " datetime within 10 years of datetime.min/max is outside the model for this property.",
     },
     {
@@ -33,7 +33,7 @@ CHECKS = [
         "exchange and cancellation by the caller's timeout at each await) passes _release_lock(); that no module-level mutable sentinel is "
         "aliased by an instance attribute that is mutated in place; that the change counter is read with I/O before the first fragment request; "
         "and that overheard fragments are merged only under a test of the lock owner. Does not decide 'never a schedule stitched from two "
-        "versions' as a trace property, nor termination of the fragment loop. Also decides, from the decision table of Schedule._is_dated (opaque results of awaited calls are fresh atoms, calls are logged as effects): with force_io=True a 'not dated' answer is only given after the change counter was read with I/O. R3 also: a protocol error from the RQ|0006 exchange in _schedule_version cannot be swallowed (a lost version query fails the fetch). Session 5: R5 - every handler around a fragment/version exchange in _get_schedule/set_schedule re-raises on all paths; R6 - the fetch loop has no normal exit other than a break under a test of the assembled schedule; R7 - the transfer is awaited directly/through wait_for(), or its task is cancelled.",
+        "versions' as a trace property, nor termination of the fragment loop. Also decides, from the decision table of Schedule._is_dated (opaque results of awaited calls are fresh atoms, calls are logged as effects): with force_io=True a 'not dated' answer is only given after the change counter was read with I/O. R3 also: a protocol error from the RQ|0006 exchange in _schedule_version cannot be swallowed (a lost version query fails the fetch). Session 5: R5 - every handler around a fragment/version exchange in _get_schedule/set_schedule re-raises on all paths; R6 - the fetch loop has no normal exit other than a break under a test of the assembled schedule; R7 - the transfer is awaited directly/through wait_for(), or its task is cancelled. Round 4: R8 - set_schedule stores the new schedule only after the fragment loop; shared futures are resolved on every exit (cancellation included); a decompressobj inflate requires eof.",
         "note": BASE_NOTE,
     },
     {
@@ -44,7 +44,7 @@ CHECKS = [
         "not-binding state and every failure path (wait timer, send failure) transitions to DevHasFailedBinding before the error reaches the "
         "caller; that only BindingError/CommandInvalid can leave the two entry points (send errors converted by one helper, used for every "
         "binding command); that armed wait timers are cancelled on leaving the state; and that the three 1FC9 phase tests are mutually exclusive. "
-        "Does not decide that both ends succeed under every interleaving (behavioural). R6: only a 1FC9 *offer* is fanned out to every binding device (the fan-out's guard implies phase == offer). Session 5: R7 - every normal return of the state's wait passes the transition to the next context state; per-attempt state accumulated while receiving is reset by both entry points or by neither.",
+        "Does not decide that both ends succeed under every interleaving (behavioural). R6: only a 1FC9 *offer* is fanned out to every binding device (the fan-out's guard implies phase == offer). Session 5: R7 - every normal return of the state's wait passes the transition to the next context state; per-attempt state accumulated while receiving is reset by both entry points or by neither. Round 4: R1's scope includes what a coroutine calls on the failure path of an awaited send.",
         "note": BASE_NOTE,
     },
     {
@@ -55,7 +55,7 @@ CHECKS = [
         "callbacks/tasks the FSM schedules or from the protocol's notifications (header reads are proven initialised under a fence: commands "
         "in send_cmd before queueing, packets in pkt_received), that the FSM lock is released on every path and each dequeue is matched by "
         "task_done(), and that a disconnect resolves the in-flight future with TransportError. Does not decide that the FSM returns to idle "
-        "after every episode, nor that its 'Coding error' self-checks cannot trip (reachability over interleavings). Session 5: R8 - after its sleep every normal path of the expiry callback passes set_state() (an expired wait always changes the state).",
+        "after every episode, nor that its 'Coding error' self-checks cannot trip (reachability over interleavings). Session 5: R8 - after its sleep every normal path of the expiry callback passes set_state() (an expired wait always changes the state). Round 4: R9 - an Inactive state answers no callback with set_state() except connection_made (inherited methods must exclude the Inactive state first).",
         "note": BASE_NOTE,
     },
     {
@@ -65,7 +65,7 @@ CHECKS = [
         "the RQ->RP / W->I reply map agrees between frame.pkt_header and the dispatcher; every FSM transition on a received packet is "
         "dominated by whole-header ==/!= tests against the sent command (no prefix/substring matching) with the single enumerated 0418 "
         "null-entry exception, and the gateway-id placeholder is substituted on both sides. Does not decide that real replies carry the "
-        "same context bytes, nor near-miss rejection over all values. Guards are only credited when their truth follows from the edge taken (conjuncts on a true edge, disjuncts on a false edge). Also decides: for every code-specific branch of Frame._ctx, the payload columns the context is built from cover the columns _pkt_idx reads for that code. R5: the complete decision tables of WantRply.pkt_rcvd and WantEcho.pkt_rcvd - a packet is accepted as the reply exactly when its header equals the reply header (or it is the enumerated 0418 null-entry) and, before the echo, it is addressed to the command's sender (literally or via the placeholder/real gateway id): nothing else is accepted and these always are. Session 4: headers are recognised by the text they build (f-string, join, +, format alike; in pkt_header or a helper it calls): every construction starting with the code has exactly code|verb|device id; reply headers are built only where verb not in (I, RP) and src != dst is known; every row of the decision tables of WantEcho/WantRply.pkt_rcvd that makes a transition has a whole-header equality true (or is the enumerated 0418 null-entry row).",
+        "same context bytes, nor near-miss rejection over all values. Guards are only credited when their truth follows from the edge taken (conjuncts on a true edge, disjuncts on a false edge). Also decides: for every code-specific branch of Frame._ctx, the payload columns the context is built from cover the columns _pkt_idx reads for that code. R5: the complete decision tables of WantRply.pkt_rcvd and WantEcho.pkt_rcvd - a packet is accepted as the reply exactly when its header equals the reply header (or it is the enumerated 0418 null-entry) and, before the echo, it is addressed to the command's sender (literally or via the placeholder/real gateway id): nothing else is accepted and these always are. Session 4: headers are recognised by the text they build (f-string, join, +, format alike; in pkt_header or a helper it calls): every construction starting with the code has exactly code|verb|device id; reply headers are built only where verb not in (I, RP) and src != dst is known; every row of the decision tables of WantEcho/WantRply.pkt_rcvd that makes a transition has a whole-header equality true (or is the enumerated 0418 null-entry row). Round 4: R5 also - echo completeness: on every path of WantEcho.pkt_rcvd's decision tree on which the echo-header equality holds, the state machine is moved on.",
         "note": BASE_NOTE,
     },
     {
@@ -75,7 +75,7 @@ CHECKS = [
         "wait_for(timeout=min(qos.timeout, SEND_TIMEOUT_LIMIT)) with the limit folding to 20.0; only ProtocolError can leave send_cmd "
         "(every class set on the future is converted); a result handed to the caller is a header-matched received packet; the future is "
         "only (re)bound together with its command and QoS; the QoS debug flags are off. Does not decide completion time under arbitrary "
-        "schedules beyond the cap being in place; ReadProtocol (raises NotImplementedError by design) is outside the quantifier. R1 also: QosParams never raises the caller's timeout (its defining expression is folded for a range of caller values). Session 5: R4 also - the timeout handler's in-flight test reads only fields set_state() resets on completion; R6 - no memoised factory returns an object of a class whose instances are rewritten in place (QosParams).",
+        "schedules beyond the cap being in place; ReadProtocol (raises NotImplementedError by design) is outside the quantifier. R1 also: QosParams never raises the caller's timeout (its defining expression is folded for a range of caller values). Session 5: R4 also - the timeout handler's in-flight test reads only fields set_state() resets on completion; R6 - no memoised factory returns an object of a class whose instances are rewritten in place (QosParams). Round 4: R7 - the impersonation notice is awaited where it is sent; asyncio queue exceptions are in the raiser table (R2).",
         "note": BASE_NOTE,
     },
     {
@@ -85,7 +85,7 @@ CHECKS = [
         "timed_out requested at one site on the true edge of tx_count < tx_limit; tx_limit = min(qos.max_retries, min(arg, 3)) + 1; the "
         "back-off exponent provably stays in 0..3 and both waits are timeout * 2**exponent; one dequeue site, reached only with no future "
         "pending, skipping resolved entries; queue entries order by priority then a unique counter before any unorderable element. "
-        "Does not decide 'exactly 1+min(r,3) transmissions', FIFO or doubling as observed in time. Also decides, by evaluating the coroutine's own updates of the exponent over its 0..3 domain: an unanswered wait leaves it at min(3, m+1) (the next wait is doubled, capped at 8x) and an answered one never raises it. Also decides: on every hop from the public send APIs down to ProtocolContext.send_cmd the QosParams handed on is the one received (or forwarded **kwargs), or a rebuild whose max_retries is carried over - never a fresh object built from the caller's other values. Session 5: R5 also - every queue-entry key ahead of the arrival counter, bar the priority, is a plain clock read (first-come-first-served within a priority); R7 - the sender's wait leaves the entry's future done whenever the sender stops waiting (unshielded wait_for(), or cancel in handlers for TimeoutError and CancelledError).",
+        "Does not decide 'exactly 1+min(r,3) transmissions', FIFO or doubling as observed in time. Also decides, by evaluating the coroutine's own updates of the exponent over its 0..3 domain: an unanswered wait leaves it at min(3, m+1) (the next wait is doubled, capped at 8x) and an answered one never raises it. Also decides: on every hop from the public send APIs down to ProtocolContext.send_cmd the QosParams handed on is the one received (or forwarded **kwargs), or a rebuild whose max_retries is carried over - never a fresh object built from the caller's other values. Session 5: R5 also - every queue-entry key ahead of the arrival counter, bar the priority, is a plain clock read (first-come-first-served within a priority); R7 - the sender's wait leaves the entry's future done whenever the sender stops waiting (unshielded wait_for(), or cancel in handlers for TimeoutError and CancelledError). Round 4: R4 also - the dequeue is only scheduled where the state is known to be IsInIdle; R6 also carries the caller's timeout over a QosParams rebuild.",
         "note": BASE_NOTE,
     },
     {
@@ -106,7 +106,7 @@ CHECKS = [
         "that nothing reaches serial.write / mqtt publish except through the regulated write_frame (bounded start-up probe excepted), that the "
         "decorators and the write-gap semaphore are in place and selected by constants in range, that the bucket is refilled before the test, "
         "the wait precedes the write and the debit post-dominates the write on all exits, that an over-budget MQTT write is dropped (nothing "
-        "queues frames), and that the bytes written depend only on the frame argument. The limiter's statements are identified by dataflow roles (level, stamp, refill, debit, write), not by text. Also decides: no shared bucket variable is written from a snapshot of itself taken before an intervening await (lost-update under concurrent writers), and every refill is paired on all paths with an update of the time stamp it was computed from (serial limiter and MQTT token bucket). Session 5: R3 also - the debit is exact (not clamped or re-based); the MQTT limiter is located through the write path; R4 also - no suspension point (await, async with a lock) precedes the over-budget decision.",
+        "queues frames), and that the bytes written depend only on the frame argument. The limiter's statements are identified by dataflow roles (level, stamp, refill, debit, write), not by text. Also decides: no shared bucket variable is written from a snapshot of itself taken before an intervening await (lost-update under concurrent writers), and every refill is paired on all paths with an update of the time stamp it was computed from (serial limiter and MQTT token bucket). Session 5: R3 also - the debit is exact (not clamped or re-based); the MQTT limiter is located through the write path; R4 also - no suspension point (await, async with a lock) precedes the over-budget decision. Round 4: R6 also - the refill caps the level (not the elapsed time) at the capacity; R4 also - no await between the over-budget test and the token debit.",
         "note": BASE_NOTE,
     },
     {
@@ -127,7 +127,7 @@ CHECKS = [
         "the field boundaries derived from COMMAND_REGEX/MESSAGE_REGEX and cover the field they are used as; the packet-log timestamp width "
         "computed from the formatter equals the readers' slice constants; Frame.__repr__/Command._from_attrs join fields in the order "
         "Frame.__init__ reads them with len = payload bytes; the annotation delimiters consumed equal those emitted, comment outermost. "
-        "Does not decide identity for every verb/seqn/address shape (values). Also decides: a truncating slice on an assembled payload keeps the regex's maximum payload width; the seqn normalisation maps only None/blank forms to '---' (decision table over seqn in {None, 0, 7, '', '---', '000'}); and _Logger.makeRecord mutates its `extra` mapping (the packet's own __dict__) only after re-binding it to a copy. Session 5: R2 - every isoformat() that writes packet/log text has timespec='microseconds'; R3 - Command.from_cli keeps three given address fields in their positions; R5 - the packet-log filter decides on the record's level alone and keeps no state.",
+        "Does not decide identity for every verb/seqn/address shape (values). Also decides: a truncating slice on an assembled payload keeps the regex's maximum payload width; the seqn normalisation maps only None/blank forms to '---' (decision table over seqn in {None, 0, 7, '', '---', '000'}); and _Logger.makeRecord mutates its `extra` mapping (the packet's own __dict__) only after re-binding it to a copy. Session 5: R2 - every isoformat() that writes packet/log text has timespec='microseconds'; R3 - Command.from_cli keeps three given address fields in their positions; R5 - the packet-log filter decides on the record's level alone and keeps no state. Round 4: R5 also - Packet._dtm has one writer (the constructor) and the packet's log record is stamped from it unconditionally.",
         "note": BASE_NOTE,
     },
     {
@@ -137,7 +137,7 @@ CHECKS = [
         "points - IEEE-754), sentinel tables of each encoder/decoder pair are mutual inverses, packed timestamp / datetime / device-id bit and "
         "column layouts agree between encoder and decoder, the duplicated device-id codecs agree, and every fixed-width hex field is bounded by "
         "a raising guard, a mask or construction (no silent wrap). Exactness on the whole grid (65,536 words, 2^24 ids) is about values and is "
-        "not decided. Also decides: the DST flag (| 0x80) is or-ed into the seconds octet on every path through hex_from_dtm (the columns already cut off the string are tracked per program point) and the decoder masks that octet with 0b1111111. Session 4: the packed device id's fields are read off the expressions (constant-folded masks/shifts, complementary over 24 bits) and each field must be bounded to its own width by a raising guard; a decoder-only sentinel that lies inside the encoder's numeric image is reported (the wire's second N/A word 31FF is the one frozen exception); flag lists must be length- and element-guarded; a paired decoder's raw/K quotient must reach its return without a coarser round()/int()/floor division. Session 5: R3 - the image of each calendar field hex_from_dts shifts into place stays on the field's grid (interval reasoning through %, &, +/-); R5 - a two's-complement encoder's raising guard covers the decoder's numeric domain bar its sentinels; R6 - no clamp in a paired decoder; R7 - no unaligned byte-pattern search in the hex text of a decoder.",
+        "not decided. Also decides: the DST flag (| 0x80) is or-ed into the seconds octet on every path through hex_from_dtm (the columns already cut off the string are tracked per program point) and the decoder masks that octet with 0b1111111. Session 4: the packed device id's fields are read off the expressions (constant-folded masks/shifts, complementary over 24 bits) and each field must be bounded to its own width by a raising guard; a decoder-only sentinel that lies inside the encoder's numeric image is reported (the wire's second N/A word 31FF is the one frozen exception); flag lists must be length- and element-guarded; a paired decoder's raw/K quotient must reach its return without a coarser round()/int()/floor division. Session 5: R3 - the image of each calendar field hex_from_dts shifts into place stays on the field's grid (interval reasoning through %, &, +/-); R5 - a two's-complement encoder's raising guard covers the decoder's numeric domain bar its sentinels; R6 - no clamp in a paired decoder; R7 - no unaligned byte-pattern search in the hex text of a decoder. Round 4: R6 also - the sign fold of a two's-complement decoder folds exactly the words >= 2**(n-1) (folded at the boundary); R8 - no hex_* codec reads the clock/timezone, and an argument not pinned to a re-iterable type is iterated at most once.",
         "note": BASE_NOTE,
     },
     {
@@ -147,7 +147,7 @@ CHECKS = [
         "rounding idiom and decoded by /100, time-of-day and zone-index codecs are inverse shapes; that a fragment (82 hex digits) equals the "
         "0404 regex bound and header+fragment fits the 48-byte frame payload, and the fragment-write payload shape is in the W|0404 regex "
         "language; and that the validator's time/setpoint grids fit the codec's. Identity for all schedules and reassembly under permuted or "
-        "repeated fragments are value/history properties and are not decided. Also decides: in _update_payload_set every path after the fragment-count test stores the received fragment in its slot or restarts the set with it (a received fragment is never discarded in favour of an older copy). Also decides: _proc_payload_set is called only from _update_payload_set and only where `None in <set>` is known false (or on the constant empty set), so a set with a gap is never handed to the decoder; and no function on the schedule codec path is memoised while returning a mutable container (decoded schedules are edited in place by their consumers). Anchors are found through the module scope of the codec functions (closures and same-module helpers), formats by constant folding. Session 5: R3 also folds a computed chunk size for every blob length up to 12 fragments against the regex bound; R8 - parser_0404 reads header fields at non-negative constant offsets only.",
+        "repeated fragments are value/history properties and are not decided. Also decides: in _update_payload_set every path after the fragment-count test stores the received fragment in its slot or restarts the set with it (a received fragment is never discarded in favour of an older copy). Also decides: _proc_payload_set is called only from _update_payload_set and only where `None in <set>` is known false (or on the constant empty set), so a set with a gap is never handed to the decoder; and no function on the schedule codec path is memoised while returning a mutable container (decoded schedules are edited in place by their consumers). Anchors are found through the module scope of the codec functions (closures and same-module helpers), formats by constant folding. Session 5: R3 also folds a computed chunk size for every blob length up to 12 fragments against the regex bound; R8 - parser_0404 reads header fields at non-negative constant offsets only. Round 4: R5 also - the fragment set is restarted on the fragment count alone; R9 - no record of the inflated blob and no overheard fragment is passed over on anything but the code, the no-schedule marker and the lock owner.",
         "note": BASE_NOTE,
     },
     {
@@ -167,7 +167,7 @@ CHECKS = [
         ">= HAS_EXPIRED with HAS_EXPIRED = 2.0, a 3 s grace subtracted from the age, the latch tested before any recomputation and "
         "CANT_EXPIRE -> False; that pkt_lifespan returns a timedelta on every path from verb/code/array-ness/the 3220 id only (no clock) and "
         "the schema's lifespan rows fold to timedelta|False|None; and that the message store is unconditional and keyed by the message's own "
-        "code/verb/context. Does not decide freshness under interleaving as a trace property. Also decides: the message handed to the value reader is always a keyed lookup or max() over all candidates (Message orders by dtm); every non-RQ 1F09 takes its lifetime from the payload countdown in every row of the decision table of Message._expired's update chain; the per-context store is keyed [code][verb][_ctx] on every store path; and no entity property reads <Message>.payload (or an attribute caching a payload) without an _expired test (213 properties). R2 also: from the decision table of Message._expired (with effects), a 'not expired' verdict is never served from the memoised fraction except for 'cannot expire'. Also decides: whether and where a new message is filed never depends on what the store already holds or on a timestamp comparison (a test over the DB is accepted only when both arms file the message in the same stores); and in _delete_msg every deletion inside the loop over the entities is KeyError-safe within its own iteration (suppress/try inside the loop, a membership test, or pop with default) and both stores are cleaned - one entity that does not hold the message cannot end the clean-up for the rest. Session 5: R4 also - _handle_msg writes only the message's own entry (no re-build or deletion of the index); R8 also - a removal from the per-code store is conditional on the entry being this very message; R9 - an array message is delivered to zones selected from its own elements.",
+        "code/verb/context. Does not decide freshness under interleaving as a trace property. Also decides: the message handed to the value reader is always a keyed lookup or max() over all candidates (Message orders by dtm); every non-RQ 1F09 takes its lifetime from the payload countdown in every row of the decision table of Message._expired's update chain; the per-context store is keyed [code][verb][_ctx] on every store path; and no entity property reads <Message>.payload (or an attribute caching a payload) without an _expired test (213 properties). R2 also: from the decision table of Message._expired (with effects), a 'not expired' verdict is never served from the memoised fraction except for 'cannot expire'. Also decides: whether and where a new message is filed never depends on what the store already holds or on a timestamp comparison (a test over the DB is accepted only when both arms file the message in the same stores); and in _delete_msg every deletion inside the loop over the entities is KeyError-safe within its own iteration (suppress/try inside the loop, a membership test, or pop with default) and both stores are cleaned - one entity that does not hold the message cannot end the clean-up for the rest. Session 5: R4 also - _handle_msg writes only the message's own entry (no re-build or deletion of the index); R8 also - a removal from the per-code store is conditional on the entry being this very message; R9 - an array message is delivered to zones selected from its own elements. Round 4: R2 also - the memoised 'cannot expire' answer is keyed on equality with the sentinel; R3 also - Packet._lifespan has one writer and Engine._dt_now never answers with a message's timestamp.",
         "note": BASE_NOTE,
     },
     {
@@ -177,7 +177,7 @@ CHECKS = [
         "role the controller can report (all heat-zone classes, sensor role, appliance control, both DHW valves, DHW sensor, each zone's own "
         "actuator role) is probed by a registered discovery command; that each probed code has a handler branch that attaches what the reply "
         "names; that a failed send re-arms the next-due time, is fenced, and cannot end the poller; and that the topology containers only "
-        "grow. The explicit LookupError in _get_msg_by_hdr is listed as undecided. Also decides: every zone promotion (`self.__class__ = ...`) is followed on all paths by a rebuild of the probe table, and in Gateway.start the restoring assignment of config.disable_discovery dominates the test that guards initiate_discovery(). Also decides: the arguments of the call that starts the discovery pollers are read at the call, or are aliases of live containers - not a local bound, before an await, to a property that builds a new list (systems created while start() was suspended would never be polled). Session 5: R7 - a due discovery request is sent: every skip before the send in discover() is a not-due or deprecated-code test, and send_disc_cmd transmits before it can return.",
+        "grow. The explicit LookupError in _get_msg_by_hdr is listed as undecided. Also decides: every zone promotion (`self.__class__ = ...`) is followed on all paths by a rebuild of the probe table, and in Gateway.start the restoring assignment of config.disable_discovery dominates the test that guards initiate_discovery(). Also decides: the arguments of the call that starts the discovery pollers are read at the call, or are aliases of live containers - not a local bound, before an await, to a property that builds a new list (systems created while start() was suspended would never be polled). Session 5: R7 - a due discovery request is sent: every skip before the send in discover() is a not-due or deprecated-code test, and send_disc_cmd transmits before it can return. Round 4: R2 also - the 000C role filter passes every probed role (folded per role); R3 also - None-able polling-table entries are dereferenced only under a test of them.",
         "note": BASE_NOTE,
     },
     {
@@ -187,7 +187,7 @@ CHECKS = [
         "parent- and controller-change checks, in Parent._add_child under an 'already set and different => SystemSchemaInconsistent' test, or "
         "from get_device(..., parent=self); that the literal keys produced by the schema properties are accepted by the PREVENT_EXTRA "
         "validators; that the zone-index domain allowed by max_zones is within the validator's idx regex and Length bound; and the duplicate "
-        "guards. Does not decide that a re-loaded schema reproduces the same objects (execution). Also decides: set_parent records _parent/_child_id only after parent._add_child() accepted the child; role fields are never cleared outside constructors; and a role that _add_child admits without any type test on the child is reported under a schema key whose validator accepts every well-formed device id (else finding F30). Also decides: Child._get_parent raises SystemSchemaInconsistent for *every* child that already has a different parent (the guard's test is implied by `self._parent and self._parent != parent` - no further condition may excuse it), and set_parent's controller-change check is logically `self.ctl and self.ctl is not <new>` wherever it is written (inline or in a private method whose call dominates the writes). Session 5: R1 also - a change check that reads a property is accepted only if the property is a pure alias of the field written; R6 - a schema view served from a memo needs every writer of its inputs (properties expanded, class changes included) to reset the memo; R7 - no schema loader leaves its walk over the roles because one role is absent.",
+        "guards. Does not decide that a re-loaded schema reproduces the same objects (execution). Also decides: set_parent records _parent/_child_id only after parent._add_child() accepted the child; role fields are never cleared outside constructors; and a role that _add_child admits without any type test on the child is reported under a schema key whose validator accepts every well-formed device id (else finding F30). Also decides: Child._get_parent raises SystemSchemaInconsistent for *every* child that already has a different parent (the guard's test is implied by `self._parent and self._parent != parent` - no further condition may excuse it), and set_parent's controller-change check is logically `self.ctl and self.ctl is not <new>` wherever it is written (inline or in a private method whose call dominates the writes). Session 5: R1 also - a change check that reads a property is accepted only if the property is a pure alias of the field written; R6 - a schema view served from a memo needs every writer of its inputs (properties expanded, class changes included) to reset the memo; R7 - no schema loader leaves its walk over the roles because one role is absent. Round 4: R8 - every return of Child.set_parent is dominated by _get_parent(); system/zone factories do not dispatch messages.",
         "note": BASE_NOTE,
     },
     {
@@ -196,7 +196,7 @@ CHECKS = [
         "text": "Narrow claim - the fixed point snapshot -> restore -> snapshot is behavioural and not decided. Decides that the snapshot filter admits "
         "no RQ, no W other than 0404 fragments, and no expired packet unless asked (every truthy return dominated by the verb and expiry "
         "tests); that the stored key/value split of repr(pkt) matches Packet.__repr__/from_dict; and that the restore feeds the packets "
-        "through the gateway's own handler and filter lists. R1 is read off the complete decision table of wanted_msg (verb x code x expired x include_expired) computed by abstract evaluation of its source: no admitted row has verb RQ, W only with code 0404, and an expired row is admitted only when asked for (per code; 313F is the recorded finding F16). Session 5: R3 also - the packets argument is replayed as given (never re-bound or mutated) and Gateway.start() starts the engine before the restore.",
+        "through the gateway's own handler and filter lists. R1 is read off the complete decision table of wanted_msg (verb x code x expired x include_expired) computed by abstract evaluation of its source: no admitted row has verb RQ, W only with code 0404, and an expired row is admitted only when asked for (per code; 313F is the recorded finding F16). Session 5: R3 also - the packets argument is replayed as given (never re-bound or mutated) and Gateway.start() starts the engine before the restore. Round 4: R3 also - the restore awaits the reader task itself, not a bounded wait.",
         "note": BASE_NOTE,
     },
     {
